@@ -249,7 +249,22 @@ func buildBatch(progs []*sdl.Program, race bool, tag string) (*batch, error) {
 	return buildBatchX(progs, race, false, tag)
 }
 
+// trimBuildCache: every batch of generated programs adds to the Go build cache, which Go itself
+// only trims by age; when the disk runs low the cache is dropped (everything in it can be rebuilt).
+func trimBuildCache() {
+	var st syscall.Statfs_t
+	if syscall.Statfs(os.TempDir(), &st) != nil {
+		return
+	}
+	if free := st.Bavail * uint64(st.Bsize); free < 12<<30 {
+		cmd := exec.Command(goBin(), "clean", "-cache")
+		cmd.Env = append(os.Environ(), "GOFLAGS=-mod=mod", "GOTOOLCHAIN=local")
+		_ = cmd.Run()
+	}
+}
+
 func buildBatchX(progs []*sdl.Program, race, lin bool, tag string) (*batch, error) {
+	trimBuildCache()
 	dir, err := os.MkdirTemp("", "verif-"+tag+"-")
 	if err != nil {
 		return nil, err
